@@ -6,7 +6,8 @@
    U ...  the same with an (in practice) unbounded recursion depth: the reference for priority
    D ...  the same with the DOCUMENTED depth 256 (a constant of the specification, not GenConsts.NDEPT)
    C <pat,pat,...>   ->  compile only, whatever the size (length computed in Z, nothing emitted): rej | ok n= res=
-   T <pat,pat,...>   ->  the parse tree of the combined pattern as an S-expression (for the oracle) *)
+   T <pat,pat,...>   ->  the parse tree of the combined pattern as an S-expression (for the oracle)
+   S <pat,pat,...>   ->  shape=1|0: the executable check RsetDefs.rset_shape (hypothesis of C10_rset_index) *)
 let pr = Printf.printf
 let maxres = match Sys.getenv_opt "PROBE_RE_MAXRES" with Some s -> int_of_string s | None -> 200000
 let site_name = function SUcLen -> "uclen" | SUcDec -> "ucdec" | SBrace -> "brace" | SOther -> "other"
@@ -89,5 +90,6 @@ let () =
      | ["D"; f; n; p; c] -> do_rset (nat_of_int 256) (int_of_string f) (int_of_string n) p c
      | ["T"; p] -> do_tree p
      | ["C"; p] -> do_comp p
+     | ["S"; p] -> pr "shape=%d\n" (if rset_shape (pats_of p) then 1 else 0)
      | _ -> pr "?\n");
     flush stdout)
